@@ -91,7 +91,7 @@ Lemma read_metas_seg d pre cols rest pos :
 Proof. intros -> -> W. rewrite read_metas_ok by exact W. reflexivity. Qed.
 
 Section TMParse.
-Variables (tid : bytes) (flags : Z) (db nm : bytes) (cols : list (coltype * bool)) (opt : bytes).
+Variables (pad : Z) (tid : bytes) (flags : Z) (db nm : bytes) (cols : list (coltype * bool)) (opt : bytes).
 Hypothesis Hflags : 0 <= flags < 65536.
 Hypothesis Hcols : len cols <= 2147483647.
 Hypothesis Hmetas : len (col_metas cols) <= 2147483647.
@@ -100,7 +100,7 @@ Hypothesis Hwf : Forall (fun p => wf_type (fst p) = true) cols.
 Let data : bytes :=
   tid ++ le_enc 2 flags ++ [len db] ++ db ++ [0] ++ [len nm] ++ nm ++ [0] ++
   enc_lenenc (len cols) ++ col_codes cols ++ enc_lenenc (len (col_metas cols)) ++ col_metas cols ++
-  pack_bits (map snd cols) ++ opt.
+  pack_bits_pad pad (map snd cols) ++ opt.
 
 Ltac seg := subst data; rewrite <- ?app_assoc; reflexivity.
 Ltac lens := rewrite ?app_length, ?le_enc_length, ?enc_lenenc_length, ?map_length; cbn [length]; unfold len; lia.
@@ -108,7 +108,7 @@ Ltac lens := rewrite ?app_length, ?le_enc_length, ?enc_lenenc_length, ?map_lengt
 Lemma tm_parse_ok :
   tm_parse data (length tid) =
   Ok {| tm_flags := flags; tm_db := db; tm_name := nm; tm_types := col_codes cols;
-        tm_can_be_null := expect_bitmap (map snd cols);
+        tm_can_be_null := expect_bitmap pad (map snd cols);
         tm_meta := map (fun p => meta_of (fst p)) cols |}.
 Proof.
   unfold tm_parse.
@@ -139,7 +139,7 @@ Proof.
   cbn [bind].
   match goal with |- context [negb ?b] => replace b with true by (symmetry; apply Z.eqb_eq; unfold len; lia) end.
   cbn [negb].
-  erewrite (new_bitmap_seg data (P10 ++ col_metas cols) (map snd cols));
+  erewrite (new_bitmap_seg pad data (P10 ++ col_metas cols) (map snd cols));
     [|subst P10 P9 P7; seg|rewrite Q10; lens|rewrite map_length; unfold len; lia].
   cbn [bind]. reflexivity.
 Qed.
@@ -148,19 +148,19 @@ End TMParse.
 Lemma post_header_tm c : post_header c 19 = if c_tid4 c then 6 else 8.
 Proof. reflexivity. Qed.
 
-Lemma expect_table_map_eq t :
-  expect_table_map t =
+Lemma expect_table_map_eq pad t :
+  expect_table_map pad t =
   {| tm_flags := td_flags t; tm_db := td_db t; tm_name := td_name t; tm_types := col_codes (td_cols t);
-     tm_can_be_null := expect_bitmap (map snd (td_cols t));
+     tm_can_be_null := expect_bitmap pad (map snd (td_cols t));
      tm_meta := map (fun p => meta_of (fst p)) (td_cols t) |}.
 Proof. reflexivity. Qed.
 
 (* TableMap on the event the master wrote (any header length, checksum on or off, 4- or 6-byte
-   table id, any optional metadata after the NULL bitmap) *)
+   table id, any padding pattern in the unused bits of the NULL bitmap, any optional metadata after it) *)
 Theorem tablemap_roundtrip c v h t crc :
   wf_cfg c = true -> wf_table_def c t ->
   (do ev <- strip_checksum56 (expect_format c v) (enc_ev c h (enc_table_map_body c t) crc);
-   ev_table_map (expect_format c v) ev) = Ok (expect_table_map t).
+   ev_table_map (expect_format c v) ev) = Ok (expect_table_map (c_pad_tm c) t).
 Proof.
   intros Wc (Hid & Hfl & Hdb & Hnm & Hn & Hm & Hty).
   rewrite strip_enc_ev. cbn [bind]. rewrite ev_table_map_unfold.
